@@ -292,6 +292,10 @@ def reductions(sc):
         c = _cp(sc)
         del c["frames"]["scalar_packed"]
         yield "frames:scalar_float", c
+    if sc["frames"].get("land_fill"):
+        c = _cp(sc)
+        del c["frames"]["land_fill"]
+        yield "frames:no_land_fill", c
     if sc["frames"].get("time_units", "epoch") != "epoch":
         c = _cp(sc)
         c["frames"]["time_units"] = "epoch"
